@@ -1,8 +1,52 @@
 """C08 stream failures surface intact and never lose or duplicate items (spec/seq Session.tla; async part: bubble)."""
 from seqcommon import sessions
+from common import mc, mc_must_fail
+
+
+def design(ctx):
+    # D: the combinators as the pull machines of stream.go (Pull.tla) over every script of <= 3 steps (items,
+    #    transient and permanent faults), every parameter, every pattern of expired contexts: the invariant is the
+    #    same SessionRules judge that validates the recorded sessions; two seeded defects must violate it (teeth)
+    mc(ctx, "seq", "Pull", "pull.cfg", "Pull machines", coverage=False)
+    mc_must_fail(ctx, "seq", "Pull", "pull_bug1.cfg", "Chunk dropping its partial chunk on an error", expect="MachinesOK")
+    mc_must_fail(ctx, "seq", "Pull", "pull_bug2.cfg", "First spending its counter on a failed Next", expect="MachinesOK")
+    pull_replay(ctx)
+
+
+def pull_replay(ctx):
+    """spec -> code: every complete behaviour of the pull machines is exported by TLC and replayed call by call"""
+    import json, os, vlib
+    raw = ctx.path("pull.raw")
+    r = ctx.tlc("seq", "Pull", "pull_export.cfg", outfile=raw, timeout=900)
+    if not r.ok:
+        raise vlib.Trouble("Pull export failed: %s %s" % (r.violated, r.error))
+    out = ctx.path("pull.ndjson")
+    n = 0
+    with open(raw) as f, open(out, "w") as g:
+        for line in f:
+            if line.startswith('<<"PULL", "'):
+                body = line[len('<<"PULL", "'):].rstrip("\n")
+                if body.endswith('">>'):
+                    body = body[:-3]
+                g.write(body.replace('\\"', '"').replace("\\\\", "\\") + "\n")
+                n += 1
+    os.unlink(raw)
+    rc, o = ctx.run_vh(["pullreplay", out], timeout=900)
+    reps = ctx.harness_report(o, "pull replay")
+    if rc != 0 or not reps:
+        raise vlib.Trouble("pullreplay died: " + o[-1500:])
+    rep = reps[-1]
+    ctx.extra["pull_replay"] = rep
+    ctx.traces += rep["behaviours"] - rep["differences"]
+    ctx.log("pull replay: %d TLC behaviours replayed on the code, %d differences" % (rep["behaviours"], rep["differences"]))
+    if rep["differences"]:
+        # the sessions recorded from the code are judged by SessionRules elsewhere; a difference here means the
+        # machine model and the code took different (possibly both legal) steps
+        ctx.notes.append("model-drift: Pull.tla and the code differ on %d behaviours, first: %s" % (rep["differences"], rep["first_difference"][:400]))
 
 
 def run(ctx):
+    design(ctx)
     # every caller-goroutine combinator and reducer x inputs up to length L x every fault position /
     # kind / pair of faults x expired-context patterns x stopping points x callback failures
     sessions(ctx, "faults", "faults", maxlen=ctx.pick(3, 3), keep=ctx.pick(0.02, 0.25))
